@@ -156,6 +156,22 @@ def run(ctx):
                 blocks.append(lazy_project(raw))
             ctx.cov['evaluations'] += len(lz); ctx.cov['oracle_violations'] = ctx.cov.get('oracle_violations', 0) + nlz
             lazy_model_compare(ctx, lz, blocks)
+            # the lazy GROW request (monotonic increase of resize_target) on a small table: one requester frozen between its load of the target and its cmpxchg
+            # while another raises the target, then alone
+            gz = []
+            for prog in ('c2/c3', 'c1/c3', 'c2/c3/c1'):
+                for k in range(0, 14 if ctx.quick() else 30):
+                    gz.append((prog, '0a' * k + '>1' + '}0}0'))
+                    gz.append((prog, '0a' * k + '1b' * 6 + '}0}0'))
+            rs = run_many([[impl, p, s + '01' * 300, '2', '8', 'o', '0', '0', '1'] for p, s in gz], timeout=20)
+            ngz = 0
+            for (p, s), (rc, raw) in zip(gz, rs):
+                o = oracle(name, dict(bounds, lazycount=40), raw)
+                ctx.cov['distinct_nontrivial'] += len(re.findall(r'^\d+ solo \d+ ok', raw, flags=re.M))
+                if o:
+                    ngz += 1
+                    if ngz <= 2: ctx.fail('oracle', 'solo-run progress oracle (lazy grow request, target raised by another thread)', o, concrete={'scenario': name, 'prog': p, 'schedule': s + '01' * 300, 'args': ['2', '8', 'o', '0', '0', '1'], 'verdict': o})
+            ctx.cov['evaluations'] += len(gz); ctx.cov['oracle_violations'] = ctx.cov.get('oracle_violations', 0) + ngz
         while len(cases) < n + len(progs) * 40:
             prog = ctx.rng.choice(progs); th = [str(i) for i in range(prog.count('/') + 1)]; v = ctx.rng.choice(th)
             cases.append((prog, bursty(ctx.rng, th, lo=5, hi=120, means=(1, 2, 5, 12)) + '}' + v + '}' + v))
